@@ -1082,9 +1082,9 @@ func (h *verifH) snap() string {
 // scenarios
 
 type verifStep struct {
-	op   string // lookup nlookup-diff nlookup-blob nlookup-info info use nuse release nrelease failblob okblob failmf okmf
-	ref  int
-	x    int // toc index (or blob index for failblob/okblob)
+	op  string // lookup nlookup-diff nlookup-blob nlookup-info info use nuse release nrelease failblob okblob failmf okmf
+	ref int
+	x   int // toc index (or blob index for failblob/okblob)
 }
 
 func (h *verifH) play(name string, steps []verifStep) {
